@@ -123,6 +123,18 @@ def make_family(ctx, rng):
             ctx.count("prop.overridden")
         if "default" in node["kw"] and rng.random() < 0.3:
             node["default_in_body"] = True
+        if chain and rng.random() < 0.15:
+            # `class Account(generated.Account)`: a subclass that keeps its parent's name
+            node["name"] = chain[-1]["name"]
+            ctx.count("child_named_like_parent")
+        if inherited_props and rng.random() < 0.15:
+            # a new attribute whose JSON name is the one an inherited property (under another attribute) has
+            held = rng.choice(sorted(inherited_props))
+            json_name = inherited_props[held].get("source") or held
+            attr = "alias_" + str(level)
+            if attr not in inherited_props and attr not in node["props"]:
+                node["props"][attr] = dict(gen.prop(2, attr), source=json_name)
+                ctx.count("child_property_with_inherited_json_name")
         chain.append(node)
     if depth >= 3:
         ctx.count("depth.3plus")
@@ -173,11 +185,23 @@ def eff_spec(chain, eff, level):
             "props": copy.deepcopy(props), "base": None, "id": 5000 + level}
 
 
-def python_image(ctx, sut, fpm, child, ancestors, values, case):
+def python_image(ctx, sut, fpm, child, ancestors, values, case, flat=None):
     """`serialize_python(child)` declares `class Child(Parent, ...)`: executed next to the real ancestors
     it must give a class that validates and serializes like the child itself."""
     try:
         text = sut.serialize_python(child)
+    except Exception as exc:  # pylint: disable=broad-except
+        # "serializes exactly like a single class declared with the merged properties": if the flat class can
+        # be written as Python, so can the subclass
+        try:
+            sut.serialize_python(flat)
+        except Exception:  # pylint: disable=broad-except
+            ctx.count("python_image.flat_unserializable_too")
+            return
+        ctx.witness("python_image_refused", case,
+                    f"serialize_python(child) raised {type(exc).__name__}: {exc!r}, the flat class serializes"[:400])
+        return
+    try:
         namespace = {anc.__name__: anc for anc in ancestors}
         exec(compile(text, "<generated>", "exec"), namespace)  # pylint: disable=exec-used
         rebuilt = namespace[child.__name__]
@@ -448,7 +472,7 @@ def run_family(ctx, sut, monitors, fpm, rng, chain):
         if not history:
             # (executing `class Child(Parent)` derives from the parent AS IT IS NOW: comparable with the child
             # only when no ancestor was reconfigured after the child had been defined)
-            python_image(ctx, sut, fpm, child, classes[:level], values, {**case, "level": level})
+            python_image(ctx, sut, fpm, child, classes[:level], values, {**case, "level": level}, flat)
         # using the child must not have touched any ancestor
         for anc_level in range(level):
             check_parent(ctx, parent_obs[anc_level]["obs"], sut, monitors, classes[anc_level],
